@@ -36,7 +36,8 @@
 // select picks among several ready channels.
 //
 // Oracle (from the property text; decisions are observed through a recording wrapper around the real policy, so an
-// attempt is attributed to the moment it was decided, not to the moment the consumer dequeued it):
+// attempt is attributed to the moment it was decided, not to the moment the consumer dequeued it; "after" is the order
+// in which the hooks ran: the decision that a delivered result triggers comes after that result):
 //
 //	more-than-one-done / instruction-after-done / no-done   exactly one final instruction, nothing after it, and every
 //	                                                       execution ends with it (termination; also no-done-before-horizon)
@@ -59,6 +60,7 @@ import (
 	"context"
 	"errors"
 	"fmt"
+	"os"
 	"sort"
 	"strings"
 	"sync"
@@ -122,8 +124,15 @@ func buildScenarios() {
 						b = "batch"
 					}
 					base := fmt.Sprintf("%s-%s-r%d-s%d", selName(sel), b, mr, sa)
-					scenarios = append(scenarios, scenario{base + "-dev2", sel, batch, mr, sa, 2, false})
+					d := 2
+					if v := os.Getenv("VERIF_C34_DEV"); v != "" {
+						fmt.Sscan(v, &d)
+					}
+					scenarios = append(scenarios, scenario{base + "-dev2", sel, batch, mr, sa, d, false})
 					scenarios = append(scenarios, scenario{base + "-dev3", sel, batch, mr, sa, 3, true})
+					if sel != relaycore.Stateless || batch || mr == 2 {
+						scenarios = append(scenarios, scenario{base + "-dev4", sel, batch, mr, sa, 4, true})
+					}
 				}
 			}
 		}
@@ -338,9 +347,10 @@ func makeSystem(sc scenario) events.System {
 		utils.SetGlobalLoggingLevel("fatal")
 		retries = lavaprotocol.NewRelayRetriesManager()
 	})
+	profTick()
 	clock.Reset()
 	s := &system{sc: sc, successStep: -1, sendOKStep: -1, fatalStep: -1, overtaken: map[int]bool{}, reasons: map[string]bool{}, starts: 1}
-	s.ticks = sc.maxRetries + 2
+	s.ticks = sc.maxRetries + 1
 	s.ctx, s.cancel = context.WithCancel(context.Background())
 	s.up = lavasession.NewUsedProviders(nil)
 	s.quit = make(chan struct{})
@@ -406,7 +416,9 @@ func (s *system) consumer() {
 		}
 		s.sendsRead++
 		if s.sendsRead > s.starts+s.sendRetries {
-			s.viol = append(s.viol, pendingViol{"send-instruction-without-policy-decision", fmt.Sprintf("%d send instructions but only the initial attempt, %d Decide()==Retry and %d send-failure retries were decided", s.sendsRead, s.starts-1, s.sendRetries)})
+			// a send that the policy did not decide: it is an attempt started (at the latest) now
+			s.viol = append(s.viol, pendingViol{"send-instruction-without-policy-decision", fmt.Sprintf("%d send instructions but only the initial attempt, %d Decide()==Retry and %d send-failure retries were decided by the policy", s.sendsRead, s.starts-1, s.sendRetries)})
+			s.attemptStarted("a send instruction the policy had not decided", -1)
 		}
 		s.pending = true
 		s.pendingN = task.NumOfProviders
@@ -476,18 +488,23 @@ func (s *system) noteDecide(in relaycore.DecisionInput, out relaycore.DecisionOu
 		return
 	}
 	s.reasons["retry:"+out.Reason] = true
+	s.attemptStarted("Decide("+src+" path) == Retry", in.AttemptNumber)
+}
+
+// attemptStarted applies the oracle to a new attempt (s.mu held).
+func (s *system) attemptStarted(how string, attemptNumber int) {
 	s.starts++
-	if s.successStep >= 0 && s.step > s.successStep {
-		s.viol = append(s.viol, pendingViol{"new-attempt-after-success", fmt.Sprintf("Decide(%s path, attempt %d) == Retry although the required successful result had been delivered at event %d", src, in.AttemptNumber, s.successStep)})
+	if s.successStep >= 0 {
+		s.viol = append(s.viol, pendingViol{"new-attempt-after-success", fmt.Sprintf("%s although the required successful result had been delivered at event %d", how, s.successStep)})
 	}
-	if s.fatalStep >= 0 && s.step > s.fatalStep {
-		s.viol = append(s.viol, pendingViol{"new-attempt-after-nonretryable-error", fmt.Sprintf("Decide(%s path, attempt %d) == Retry although a %s result had been delivered at event %d", src, in.AttemptNumber, s.fatalKind, s.fatalStep)})
+	if s.fatalStep >= 0 {
+		s.viol = append(s.viol, pendingViol{"new-attempt-after-nonretryable-error", fmt.Sprintf("%s although a %s result had been delivered at event %d", how, s.fatalKind, s.fatalStep)})
 	}
-	if s.sc.sel != relaycore.Stateless && s.sendOKStep >= 0 && s.step > s.sendOKStep {
-		s.viol = append(s.viol, pendingViol{"resend-after-successful-send", fmt.Sprintf("%s request: Decide(%s path) == Retry although a send had succeeded at event %d", selName(s.sc.sel), src, s.sendOKStep)})
+	if s.sc.sel != relaycore.Stateless && s.sendOKStep >= 0 {
+		s.viol = append(s.viol, pendingViol{"resend-after-successful-send", fmt.Sprintf("%s request: %s although a send had succeeded at event %d", selName(s.sc.sel), how, s.sendOKStep)})
 	}
 	if s.starts > s.sc.maxRetries+1 {
-		s.viol = append(s.viol, pendingViol{"attempt-starts-exceed-max-retries", fmt.Sprintf("attempt %d was started (initial + %d retries decided by Decide, last one on the %s path with AttemptNumber %d) with MaxRetries = %d", s.starts, s.starts-1, src, in.AttemptNumber, s.sc.maxRetries)})
+		s.viol = append(s.viol, pendingViol{"attempt-starts-exceed-max-retries", fmt.Sprintf("attempt %d was started (the initial one + %d retries; the last one: %s, AttemptNumber given to the policy %d) with MaxRetries = %d", s.starts, s.starts-1, how, attemptNumber, s.sc.maxRetries)})
 	}
 }
 
@@ -511,10 +528,10 @@ func (s *system) noteSendResult(err error, res relaycore.SendResult) {
 		if err == nil || s.consecErr > s.sc.sendAttempts {
 			s.viol = append(s.viol, pendingViol{"send-failure-retries-exceed-allowed", fmt.Sprintf("a send-failure retry was decided after %d consecutive send failures with SendRelayAttempts = %d", s.consecErr, s.sc.sendAttempts)})
 		}
-		if s.successStep >= 0 && s.step > s.successStep {
+		if s.successStep >= 0 {
 			s.viol = append(s.viol, pendingViol{"send-retry-after-success", fmt.Sprintf("a send-failure retry was decided although the required successful result had been delivered at event %d", s.successStep)})
 		}
-		if s.sc.sel != relaycore.Stateless && s.sendOKStep >= 0 && s.step > s.sendOKStep {
+		if s.sc.sel != relaycore.Stateless && s.sendOKStep >= 0 {
 			s.viol = append(s.viol, pendingViol{"resend-after-successful-send", fmt.Sprintf("%s request: a send-failure retry was decided although a send had succeeded at event %d", selName(s.sc.sel), s.sendOKStep)})
 		}
 	}
@@ -579,7 +596,8 @@ func (s *system) Enabled() []events.Event {
 			over = over || s.overtaken[sl.ID]
 		}
 		if !over {
-			out = append(out, events.Event{Name: "tick", Deviation: len(sleeps) > 0})
+			// early timer: the relay timeout elapses during a 15 ms sleep or while the consumer is still sending
+			out = append(out, events.Event{Name: "tick", Deviation: len(sleeps) > 0 || s.pending})
 		}
 	}
 	if len(sleeps) > 0 {
@@ -662,12 +680,16 @@ func (s *system) Final(report events.Reporter) {
 		report("no-done", "no event is enabled any more (processing timeout included) but no final instruction was emitted")
 		return
 	}
+	s.up.AddUsed(lavasession.ConsumerSessionsMap{"epilogue": &lavasession.SessionInfo{}}, nil)
 	for round := 0; round < 6; round++ {
 		s.mu.Lock()
 		pending := s.pending
 		inflight := s.inflight
 		s.inflight = nil
 		s.mu.Unlock()
+		if !pending && len(inflight) == 0 && len(clock.Pending()) == 0 {
+			break
+		}
 		if pending {
 			select {
 			case s.gate <- "nil":
@@ -736,10 +758,17 @@ func (s *system) Close() {
 			clock.Fire(t)
 		}
 		events.Quiesce()
+		s.mu.Lock()
+		idle := !s.pending
+		s.mu.Unlock()
+		if idle && len(clock.Pending()) == 0 && len(s.ch) == 0 {
+			break
+		}
 	}
 	close(s.quit)
-	events.Quiesce()
 	clock.Deactivate()
+	events.Quiesce()
+	leakCheck()
 }
 
 // ---------------------------------------------------------------------------------------------------
@@ -760,7 +789,7 @@ func init() {
 }
 
 func run(r *ev.Run) {
-	cfg := events.RunConfig{Shards: 16, ShardDepth: 4, Deadline: 75 * time.Second}
+	cfg := events.RunConfig{Shards: 16, ShardDepth: 6, Deadline: 75 * time.Second}
 	if ev.Tier() == "thorough" {
 		cfg.Deadline = 14 * time.Minute
 	}
@@ -789,7 +818,7 @@ func run(r *ev.Run) {
 	r.Set("engine", "events")
 	devs := "2"
 	if ev.Tier() == "thorough" {
-		devs = "2 and 3"
+		devs = "2, 3 and (all but Stateless with a single message and MaxRetries 3) 4"
 	}
 	r.Set("bound", "real UnifiedRelayStateMachine + real relaypolicy.Policy with the consumer configuration; selection in {Stateless, Stateful (2 sessions per send), CrossValidation (2 participants, threshold 2)} x {single, batch message (DisableBatchRequestRetry default)} x MaxRetries in {2,3} x SendRelayAttempts in {1,2}; "+
 		"every order of the enabled events UpdateBatch(nil | pairing-list-empty | error), result(success | node-error | node-error-nonretryable | protocol-error | epoch-mismatch) for the oldest in-flight relay, tick, rc-timer, processing-timeout; "+
